@@ -56,11 +56,11 @@ def plan_st(draw, tier):
             queries.append(["stored", i, list(stored[i])])
         elif kind_q == "pow2":
             i = draw(st.integers(0, len(stored) - 1))
-            c = draw(st.sampled_from([2.0, 4.0, 0.5, 1024.0, 0.125]))
+            c = draw(st.sampled_from([2.0, 4.0, 0.5, 1024.0, 0.125, 2.0 ** -200, 2.0 ** 200]))
             queries.append(["scaled", i, [c * v for v in stored[i]]])
         elif kind_q == "scaled":
             i = draw(st.integers(0, len(stored) - 1))
-            c = draw(st.sampled_from([3.0, 0.1, 1.7, 1e6, 1e-3, 1e-10, 1e-12]))
+            c = draw(st.sampled_from([3.0, 0.1, 1.7, 1e6, 1e-3, 1e-10, 1e-12, 1e-60, 1e-100, 1e60, 1e100]))
             queries.append(["scaled", i, [c * v for v in stored[i]]])
         elif kind_q == "zero":
             queries.append(["zero", -1, [0] * h.d])
